@@ -55,6 +55,12 @@ SPAN_SOURCES = SPAN_SOURCES + (
     ("document_ts_fragvars", "type O { f(a: [[Int!]!]! = [[1], []]): [[T]] g: [[[T!]]!] } input In { m: [[[In!]]] = [[[{m: []}]]] } directive @x(a: [[Int]]) on FIELD"),
     ("document_ts_fragvars", "query ($m: [[Int]!]! = [[1], []]) { f(x: [[{a: [[1]]}]]) { g { h { i(y: [[$m]]) } } } } fragment F($v: [[T!]] = [[]]) on T { a { b { c } } }"),
 )
+# (appended) the SAME name / keyword-like token at several places of one document (directive locations shared by definitions and repeated inside one, one name for
+# every field, alias, argument, variable, directive, fragment and type): a node built for the first occurrence must not stand in for a later one
+SPAN_SOURCES = SPAN_SOURCES + (
+    ("document_ts_fragvars", "directive @a on FIELD | QUERY directive @b(x: Int) on QUERY | FIELD | FIELD directive @c on FIELD type T { f: T f2: T } union U = T | T enum E { V W } extend union U = T"),
+    ("document_ts_fragvars", "query a($a: a = a @a) { a a { a a: a(a: a, a: $a) @a(a: $a) @a } ...a ... on a { a } } fragment a on a { a }"),
+)
 
 
 def span_tokens(text):
